@@ -110,7 +110,8 @@ def _a2(ctx, rep):
     opt = ix.func(M + "projected_gradient_descent.ProjectedGradientDescentOption.__init__")
     accepted = None
     for n in own_nodes(opt.node):
-        if isinstance(n, ast.If) and "mode_stopping_criterion_gradient_descent" in unparse(n.test):
+        from ..astutil import deep_inline as _di
+        if isinstance(n, ast.If) and "mode_stopping_criterion_gradient_descent" in unparse(_di(opt, n.test)):
             t = n.test
             if isinstance(t, ast.UnaryOp):
                 t = t.operand
